@@ -326,7 +326,8 @@ class SpatialBase(object):
         a, b = self._sky_paxes()
         # We need to multiply the second moment by two to get the major axis
         # rather than the half-major axis.
-        return dx * np.sqrt(self.stat.mom2_along(tuple(a)))
+        # (rounding can make the variance of a degenerate structure slightly negative)
+        return dx * np.sqrt(max(self.stat.mom2_along(tuple(a)), 0))
 
     @property
     def minor_sigma(self):
@@ -339,7 +340,7 @@ class SpatialBase(object):
         a, b = self._sky_paxes()
         # We need to multiply the second moment by two to get the minor axis
         # rather than the half-minor axis.
-        return dx * np.sqrt(self.stat.mom2_along(tuple(b)))
+        return dx * np.sqrt(max(self.stat.mom2_along(tuple(b)), 0))
 
     @property
     def radius(self):
@@ -465,7 +466,7 @@ class PPVStatistic(SpatialBase):
         dv = self.velocity_scale if self.velocity_scale is not None else u.pixel
         ax = [0, 0, 0]
         ax[self.vaxis] = 1
-        return dv * np.sqrt(self.stat.mom2_along(tuple(ax)))
+        return dv * np.sqrt(max(self.stat.mom2_along(tuple(ax)), 0))
 
     @property
     def position_angle(self):
